@@ -142,7 +142,17 @@ func sourceLine(file string, line int) string {
 	return ""
 }
 
-func parseAsanLogs(base, logPath string, job Job, out *merged) {
+var asanHeadRe = regexp.MustCompile(`ERROR: AddressSanitizer: (\S+)`)
+var asanAccessRe = regexp.MustCompile(`(?m)^(READ|WRITE) of size (\d+)`)
+var asanFrameRe = regexp.MustCompile(`(?m)^\s+#(\d+) 0x[0-9a-f]+ in (\S+) (\S+)`)
+
+// parseAsanLogs reads every AddressSanitizer report block of a child (recover
+// mode: there may be many). One class is informational: QuickLZ's word-wise
+// fetch (fast_read) reads a whole 32-bit word where fewer bytes remain, i.e. it
+// over-reads its *source* by at most 3 bytes; that is the library's documented
+// access pattern on valid streams, changes no reply and is not a property of the
+// list. Every other report is a violation.
+func parseAsanLogs(base, logPath string, job Job, out *merged, curCase string, childDone bool) {
 	files, _ := filepath.Glob(base + "/asan.log*")
 	files = append(files, logPath)
 	for _, f := range files {
@@ -150,18 +160,38 @@ func parseAsanLogs(base, logPath string, job Job, out *merged) {
 		if err != nil {
 			continue
 		}
-		s := string(b)
-		idx := strings.Index(s, "ERROR: AddressSanitizer")
-		if idx < 0 {
-			continue
+		blocks := strings.Split(string(b), "=================================================================")
+		for _, blk := range blocks {
+			m := asanHeadRe.FindStringSubmatch(blk)
+			if m == nil {
+				continue
+			}
+			out.events["asan.reports"]++
+			kind := m[1]
+			access, size := "", ""
+			if am := asanAccessRe.FindStringSubmatch(blk); am != nil {
+				access, size = am[1], am[2]
+			}
+			top := ""
+			var chain []string
+			for _, fm := range asanFrameRe.FindAllStringSubmatch(blk, 6) {
+				if top == "" {
+					top = fm[2]
+				}
+				chain = append(chain, fm[2])
+			}
+			if access == "READ" && size == "4" && top == "fast_read" && (kind == "use-after-poison" || kind == "heap-buffer-overflow") {
+				out.events["asan.informational.quicklz_fast_read_source_overread"]++
+				continue
+			}
+			caseID := "asan"
+			if !childDone && curCase != "" && (kind == "SEGV" || strings.Contains(blk, "ABORTING")) {
+				caseID = curCase
+			}
+			if len(out.violations) < 300 {
+				out.violations = append(out.violations, childViolation{Case: caseID, Sig: fmt.Sprintf("asan:%s:%s%s:%s", kind, access, size, top),
+					Detail: "AddressSanitizer report (" + strings.Join(chain, " <- ") + "):\n" + firstN(strings.TrimSpace(blk), 3500), job: job})
+			}
 		}
-		out.events["asan.reports"]++
-		rep := s[idx:]
-		kind := "unknown"
-		if m := regexp.MustCompile(`AddressSanitizer: ([a-z\-]+)`).FindStringSubmatch(rep); m != nil {
-			kind = m[1]
-		}
-		out.violations = append(out.violations, childViolation{Case: "asan", Sig: "asan:" + kind, Detail: firstN(rep, 4000), job: job})
-		return
 	}
 }
